@@ -167,7 +167,24 @@ func checkC19(p *Prog, r *Report) {
 		return false, nil
 	}
 
+	/* recordsNow: the instruction stores time.Now() into lastPlainWrite, or
+	calls resetSilenceTimer in a way which does. */
+	recordsNow := func(j ssa.Instruction) bool {
+		if st, ok := j.(*ssa.Store); ok {
+			if fv, _ := fieldAddrOf(st.Addr); fv == last {
+				if c, ok := st.Val.(*ssa.Call); ok && "time.Now" == calleeName(c.Common()) {
+					return true
+				}
+			}
+		}
+		if ok, upd := isReset(j); ok && nil != upd {
+			b, isC := constBool(upd)
+			return isC && b
+		}
+		return false
+	}
 	/* 1 & 3: all stores to silenced. */
+	muteFn := cbFn /* The function holding the mute logic (the callback or the goroutine it starts). */
 	nT, nF := 0, 0
 	for _, fn := range p.Funcs() {
 		eachInstr(fn, func(i ssa.Instruction) {
@@ -185,13 +202,24 @@ func checkC19(p *Prog, r *Report) {
 				rMute.Bad(c, posOf(st), "silenced is assigned a computed value")
 			case v:
 				nT++
+				/* In the callback itself, or in a closure the callback
+				starts (the handler runs in its own goroutine so as not to
+				take locks under the terminal's lock). */
+				var site ssa.Instruction = st
+				keyFn := fn
 				if fn != cbFn {
-					rMute.Bad(c, posOf(st), "output is muted outside the control-key callback: something other than Ctrl+O suppresses shell output")
-					return
+					if fn.Parent() == cbFn {
+						site, keyFn = closureSite(cbFn, fn), cbFn
+					}
+					if nil == site || keyFn != cbFn {
+						rMute.Bad(c, posOf(st), "output is muted outside the control-key callback: something other than Ctrl+O suppresses shell output")
+						return
+					}
+					muteFn = fn
 				}
 				/* Below key == 0x0F. */
 				okKey := false
-				for _, b := range fn.Blocks {
+				for _, b := range keyFn.Blocks {
 					ifi := blockIf(b)
 					if nil == ifi {
 						continue
@@ -205,7 +233,7 @@ func checkC19(p *Prog, r *Report) {
 						if dc.Eq {
 							e = 0
 						}
-						if edgeDominates(ifi, e, st) {
+						if edgeDominates(ifi, e, site) {
 							okKey = true
 						}
 					}
@@ -334,7 +362,7 @@ func checkC19(p *Prog, r *Report) {
 		rUn.Bad("silenced=false:count", token.NoPos, "%d stores of false into silenced, one expected", nF)
 	}
 	/* Already-muted edge of the callback: no writes, no reset. */
-	if ifi, tk := silTest(cbFn); nil != ifi {
+	if ifi, tk := silTest(muteFn); nil != ifi {
 		hit := reachQ{From: Loc{ifi.Block().Succs[tk], -1}, Target: func(j ssa.Instruction) bool {
 			if st, ok := j.(*ssa.Store); ok {
 				if fv, _ := fieldAddrOf(st.Addr); fv == sil || fv == last {
@@ -345,12 +373,12 @@ func checkC19(p *Prog, r *Report) {
 			return ok
 		}}.run()
 		if nil != hit {
-			rMute.Bad(fnName(cbFn)+":repeat-is-noop", posOf(hit), "on the already-muted path of Ctrl+O the mute state or the timer is changed: pressing Ctrl+O again postpones un-muting")
+			rMute.Bad(fnName(muteFn)+":repeat-is-noop", posOf(hit), "on the already-muted path of Ctrl+O the mute state or the timer is changed: pressing Ctrl+O again postpones un-muting")
 		} else {
-			rMute.OK(fnName(cbFn)+":repeat-is-noop", posOf(ifi), "Ctrl+O while muted only prints a notice")
+			rMute.OK(fnName(muteFn)+":repeat-is-noop", posOf(ifi), "Ctrl+O while muted only prints a notice")
 		}
 		/* And: every reset/state change of the callback is below the not-muted edge. */
-		eachInstr(cbFn, func(j ssa.Instruction) {
+		eachInstr(muteFn, func(j ssa.Instruction) {
 			isR, _ := isReset(j)
 			st, isSt := j.(*ssa.Store)
 			touch := isR
@@ -360,15 +388,15 @@ func checkC19(p *Prog, r *Report) {
 				}
 			}
 			if touch && !edgeDominates(ifi, 1-tk, j) {
-				rMute.Bad(fnName(cbFn)+":state-change-guarded", posOf(j), "the callback changes the mute state or the timer before testing whether output is already muted")
+				rMute.Bad(fnName(muteFn)+":state-change-guarded", posOf(j), "the callback changes the mute state or the timer before testing whether output is already muted")
 			}
 		})
 	} else {
-		rMute.Bad(fnName(cbFn)+":already-muted-test", cbFn.Pos(), "the callback does not test whether output is already muted")
+		rMute.Bad(fnName(muteFn)+":already-muted-test", muteFn.Pos(), "the callback does not test whether output is already muted")
 	}
 
 	/* 2. Readers. */
-	allowed := map[*ssa.Function]bool{wp: true, cbFn: true, timerFn: true}
+	allowed := map[*ssa.Function]bool{wp: true, cbFn: true, muteFn: true, timerFn: true}
 	nr := 0
 	for _, fn := range p.Funcs() {
 		eachInstr(fn, func(i ssa.Instruction) {
@@ -415,21 +443,14 @@ func checkC19(p *Prog, r *Report) {
 				rRead.OK(fnName(wp)+":never-dropped-unmuted", posOf(write), "when not muted every plain line is written")
 			}
 		}
-		miss := reachQ{From: Loc{ifi.Block().Succs[tk], -1}, Target: isReturn, Block: func(j ssa.Instruction) bool {
-			ok, upd := isReset(j)
-			if !ok {
-				return false
-			}
-			if nil != upd {
-				b, isC := constBool(upd)
-				return isC && b
-			}
-			return true
-		}}.run()
-		if nil == miss {
+		from := Loc{ifi.Block().Succs[tk], -1}
+		switch {
+		case nil != (reachQ{From: from, Target: isReturn, Block: recordsNow}).run():
+			rArm.Bad(fnName(wp)+":suppressed-write-rearms", posOf(ifi), "a suppressed plain write does not record its time: muting ends although output is still arriving")
+		case nil != (reachQ{From: from, Target: isReturn, Block: func(j ssa.Instruction) bool { ok, _ := isReset(j); return ok }}).run():
+			rArm.Bad(fnName(wp)+":suppressed-write-rearms", posOf(ifi), "a suppressed plain write does not push the timer back")
+		default:
 			rArm.OK(fnName(wp)+":suppressed-write-rearms", posOf(ifi), "a suppressed write records its time and pushes the timer back")
-		} else {
-			rArm.Bad(fnName(wp)+":suppressed-write-rearms", posOf(ifi), "a suppressed plain write does not record its time and re-arm the timer: muting ends although output is still arriving")
 		}
 	} else {
 		rRead.Bad(fnName(wp)+":silenced-test", wp.Pos(), "writePlain does not test the mute flag")
@@ -438,27 +459,19 @@ func checkC19(p *Prog, r *Report) {
 
 	/* 4. Muting path arms the timer. */
 	var stT *ssa.Store
-	eachInstr(cbFn, func(j ssa.Instruction) {
+	eachInstr(muteFn, func(j ssa.Instruction) {
 		if st, ok := j.(*ssa.Store); ok && isFieldOfShell(st.Addr, sil) {
 			stT = st
 		}
 	})
 	if nil != stT {
-		miss := reachQ{From: locOf(stT), Target: isReturn, Block: func(j ssa.Instruction) bool {
-			ok, upd := isReset(j)
-			if !ok {
-				return false
-			}
-			if nil != upd {
-				b, isC := constBool(upd)
-				return isC && b
-			}
-			return true
-		}}.run()
-		if nil == miss {
-			rArm.OK(fnName(cbFn)+":mute-arms-timer", posOf(stT), "muting starts the pause timer from now")
-		} else {
-			rArm.Bad(fnName(cbFn)+":mute-arms-timer", posOf(stT), "muting does not arm the timer: output stays muted forever if the shell is silent")
+		switch {
+		case nil != (reachQ{From: locOf(stT), Target: isReturn, Block: recordsNow}).run():
+			rArm.Bad(fnName(muteFn)+":mute-arms-timer", posOf(stT), "muting does not record the current time as the start of the calm interval: the timer function takes the first firing for its start-up call (or measures from a stale time) and output stays muted, or un-mutes at the wrong moment")
+		case nil != (reachQ{From: locOf(stT), Target: isReturn, Block: func(j ssa.Instruction) bool { ok, _ := isReset(j); return ok }}).run():
+			rArm.Bad(fnName(muteFn)+":mute-arms-timer", posOf(stT), "muting does not arm the timer: output stays muted forever if the shell is silent")
+		default:
+			rArm.OK(fnName(muteFn)+":mute-arms-timer", posOf(stT), "muting records the time and starts the pause timer")
 		}
 	}
 	/* resetSilenceTimer. */
@@ -497,6 +510,132 @@ func checkC19(p *Prog, r *Report) {
 			rArm.OK(fnName(rst)+":fires-after-pause", rst.Pos(), "silenceTimer fires PlainWritePause after the last suppressed write")
 		} else {
 			rArm.Bad(fnName(rst)+":fires-after-pause", rst.Pos(), "the timer is not reset to fire PlainWritePause after the last suppressed write")
+		}
+	}
+
+	/* resetSilenceTimer resets on every path and its time update is guarded
+	by nothing but its own parameter. */
+	{
+		var reset ssa.Instruction
+		eachInstr(rst, func(j ssa.Instruction) {
+			if c := callCommon(j); nil != c && "(*time.Timer).Reset" == calleeName(c) {
+				reset = j
+			}
+		})
+		if nil != reset {
+			if miss := (reachQ{From: entryLoc(rst), Target: isReturn, Block: func(j ssa.Instruction) bool { return j == reset }}).run(); nil != miss {
+				rArm.Bad(fnName(rst)+":always-resets", posOf(miss), "resetSilenceTimer can return without resetting the timer (and without recording the time): the calm interval is measured from an older write and muting ends early")
+			} else {
+				rArm.OK(fnName(rst)+":always-resets", posOf(reset), "every call resets the timer")
+			}
+		}
+		/* The time update: reachable from entry whenever the parameter is
+		true (no other guard). */
+		if nil != rstParam {
+			var upd ssa.Instruction
+			eachInstr(rst, func(j ssa.Instruction) {
+				if st, ok := j.(*ssa.Store); ok {
+					if fv, _ := fieldAddrOf(st.Addr); fv == last {
+						upd = j
+					}
+				}
+			})
+			ne := map[Edge]bool{}
+			for _, b := range rst.Blocks {
+				if ifi := blockIf(b); nil != ifi && decodeCond(ifi.Cond).X == ssa.Value(rstParam) {
+					ne[Edge{b.Index, b.Succs[1].Index}] = true /* parameter false */
+				}
+			}
+			if nil != upd {
+				if miss := (reachQ{From: entryLoc(rst), NoEdges: ne, Target: isReturn, Block: func(j ssa.Instruction) bool { return j == upd }}).run(); nil != miss {
+					rArm.Bad(fnName(rst)+":update-unconditional", posOf(miss), "when asked to record the time of a write resetSilenceTimer can skip doing so")
+				} else {
+					rArm.OK(fnName(rst)+":update-unconditional", posOf(upd), "the time is recorded whenever the caller asks for it")
+				}
+			}
+		}
+	}
+	/* Only shell output goes through the mute-aware write. */
+	for _, ci := range p.callersOf(wp) {
+		c := fnName(ci.Parent()) + "→writePlain"
+		if ho := p.Func(opsPkg, "Shell", "handleOutput"); ci.Parent() == ho {
+			rRead.OK(c, posOf(ci), "the output handler's Plain branch")
+		} else {
+			rRead.Bad(c, posOf(ci), "%s writes through the mute-aware path meant for remote shell output: local text is dropped while muted and postpones un-muting", fnName(ci.Parent()))
+		}
+	}
+	/* Lock order: goxterm runs the control-character callback with the
+	terminal's lock held; whoever writes to the terminal takes Shell.wL and
+	then the terminal's lock.  The callback must therefore not take
+	Shell.wL synchronously. */
+	{
+		acquires := func(fn *ssa.Function) bool {
+			found := false
+			eachInstr(fn, func(j ssa.Instruction) {
+				if _, isGo := j.(*ssa.Go); isGo {
+					return
+				}
+				c := callCommon(j)
+				if nil == c {
+					return
+				}
+				if "(*sync.Mutex).Lock" == calleeName(c) {
+					if fv, _ := fieldAddrOf(c.Args[0]); fv == wl {
+						found = true
+					}
+				}
+			})
+			return found
+		}
+		/* Functions taking wL, transitively through synchronous static calls. */
+		takes := map[*ssa.Function]bool{}
+		for changed := true; changed; {
+			changed = false
+			for _, fn := range p.Funcs() {
+				if takes[fn] || nil == fn.Pkg || !strings.HasSuffix(fn.Pkg.Pkg.Path(), "/"+opsPkg) {
+					continue
+				}
+				t := acquires(fn)
+				eachInstr(fn, func(j ssa.Instruction) {
+					if _, isGo := j.(*ssa.Go); isGo {
+						return
+					}
+					if c := callCommon(j); nil != c && nil != c.StaticCallee() && takes[c.StaticCallee()] {
+						t = true
+					}
+				})
+				if t {
+					takes[fn] = true
+					changed = true
+				}
+			}
+		}
+		/* Does anything write to the terminal while holding wL? */
+		writesUnderLock := false
+		for _, fn := range p.Funcs() {
+			if nil == fn.Pkg || !strings.HasSuffix(fn.Pkg.Pkg.Path(), "/"+opsPkg) {
+				continue
+			}
+			held := mustHold(fn, wl)
+			eachInstr(fn, func(j ssa.Instruction) {
+				c := callCommon(j)
+				if nil == c || !held[j] {
+					return
+				}
+				for _, a := range callArgs(c) {
+					if typeIs(stripConv(a, false).Type(), "github.com/magisterquis/goxterm", "Terminal") {
+						writesUnderLock = true
+					}
+				}
+			})
+		}
+		switch {
+		case !writesUnderLock:
+			rLock.OK(fnName(cbFn)+":lock-order", cbFn.Pos(), "nothing uses the terminal while holding Shell.wL")
+		case takes[cbFn]:
+			rLock.Bad(fnName(cbFn)+":lock-order", cbFn.Pos(), "the control-character callback, which goxterm calls with the terminal's lock held, takes Shell.wL synchronously, while writers take Shell.wL and then the terminal's lock: pressing the key during a write deadlocks the terminal")
+		default:
+			rLock.OK(fnName(cbFn)+":lock-order", cbFn.Pos(), "the callback takes no lock under the terminal's lock (work is handed to goroutines)")
 		}
 	}
 
